@@ -65,8 +65,16 @@ fn run_case(rep: &mut Report, args: &Args, case: u64, rt: &tokio::runtime::Runti
     for _ in 0..rng.gen_range(1..=2) {
         vkeys.push((rng.gen(), false));
     }
+    // 30 %: the node is a standby validator - it holds a validator key that is not (yet) in the committee; its validator
+    // network must still admit committee members only
+    let standby = rng.gen_bool(0.3);
+    let standby_key: validator::SecretKey = rng.gen();
+    if standby {
+        cfg.validator_key = Some(standby_key.clone());
+        rep.count("node_cases_with_standby_validator_node");
+    }
     let node_gossip_key = cfg.gossip.key.public();
-    let node_validator_key = setup.validator_keys[0].public();
+    let node_validator_key = if standby { standby_key.public() } else { setup.validator_keys[0].public() };
     let genesis = setup.genesis_hash();
     let addr = *cfg.server_addr;
     let nops = rng.gen_range(10..28usize);
